@@ -68,29 +68,32 @@ Theorem keys_match_is_sql_eq :
   forall lw lk rk (l r : row), length l = lw -> length lk = length rk -> Forall (fun i => (i < lw)%nat) lk -> forallb no_bool l = true -> forallb no_bool r = true -> on3 (keys_expr lw lk rk) l r <> None -> keys_match_static l r lk rk = on_tt (keys_expr lw lk rk) l r.
 Proof. exact keys_match_is_sql_eq_l. Qed.
 
-(* the hand-written two-table path of Database::query returns exactly the rows SQL defines, for all
-   tables, join types, ON / WHERE conditions and select lists outside the finding classes 3, 4, 8
-   (cls_sql = 0), given that predicate evaluation agrees with the reference on the joined rows (C14) *)
+(* the hand-written two-table path of Database::query (repaired code) returns exactly the rows SQL
+   defines, for all tables, join types, ON / WHERE conditions, select lists (SELECT * included) and both
+   naming styles outside the one open finding class 3 (cls_sql = 0), given that predicate evaluation
+   agrees with the reference on the rows it sees (C14) and that the model's `i as f64` bit pattern is
+   the float equal to i (int_bits_exact, a fact about Model/JoinHw.v f64_bits_of_int) *)
 Theorem hw_join_correct :
-  forall jt lw rw on w sel (L R : table) t s, let q := mkq [(lw, L); (rw, R)] [(jt, on)] w (Some sel) in cls_sql q false = 0 -> Forall (fun l => length l = lw) L -> (forall e, opt_on jt on = Some e -> pred_ok e (pairs_of L R)) -> (forall e, w = Some e -> pred_ok e (pairs_of L R)) -> hw_model q false = HRows t -> query_spec q = Some s -> t = s.
+  int_bits_exact -> forall jt lw rw qual on w sel (L R : table) t s, let q := mkq [(lw, L); (rw, R)] [(jt, on)] w sel in cls_sql q qual = 0 -> Forall (fun l => length l = lw) L -> (forall e, opt_on jt on = Some e -> pred_ok e (pairs_of L R)) -> (forall e, w = Some e -> pred_ok e (join_rows jt lw rw (pair_tt (opt_on jt on)) L R)) -> hw_model q qual = HRows t -> query_spec q = Some s -> t = s.
 Proof. exact hw2_correct_l. Qed.
 
-(* the finding classes are real: on these four cases the faithful models return what the implementation
-   returned, and it is not the SQL join *)
-Theorem known_classes_refuted :
-  refuted w1 1 = true /\ refuted w3 3 = true /\ refuted w4 4 = true /\ refuted w8 8 = true.
-Proof. exact known_classes_refuted_l. Qed.
+(* the finding classes repaired in /repo (1, 2, 3-residual, 4, 8, 10): on their former witnesses the models of
+   the repaired code return what the implementation now returns, and that is the SQL join *)
+Theorem repaired_classes_regression :
+  repaired w1 = true /\ repaired w2 = true /\ repaired w3 = true /\ repaired w4 = true /\ repaired w8 = true /\ repaired w10 = true.
+Proof. exact repaired_classes_regression_l. Qed.
 
-(* ... the rows SQL defines for them *)
-Theorem known_classes_expected :
-  (match w1 with Exec _ jt _ _ _ lk rk lw rw L R _ => bag_eqb (join_rows jt lw rw (on_tt (keys_expr lw lk rk)) (map fst L) (map fst R)) [[VInt 1; VInt 10; VFloat 4607182418800017408; VInt 100]; [VInt 2; VInt 20; VInt 2; VInt 200]] | _ => false end) = true /\ (match w3 with Sql q _ _ _ => query_spec q | _ => None end) = Some [[VInt 1; VInt 1]; [VInt 2; VInt 1]] /\ (match w4 with Sql q _ _ _ => query_spec q | _ => None end) = Some [[VInt 1; VInt 1]; [VInt 1; VInt 2]] /\ (match w8 with Sql q _ _ _ => query_spec q | _ => None end) = Some [[VInt 1; VInt 1]; [VInt 2; VInt 2]].
-Proof. exact refuted_expected_l. Qed.
+(* the two-table class still open (3: bare names, equality between two columns of one input): the
+   faithful model returns what the implementation returns, and it is not what SQL defines *)
+Theorem open_class_refuted :
+  refuted w3s 3 = true /\ (match w3s with Sql q _ _ _ => query_spec q | _ => None end) = Some [[VInt 1; VInt 1]; [VInt 2; VNull]; [VInt 3; VNull]].
+Proof. exact open_class_refuted_l. Qed.
 
-(* the hash hypothesis of grace_is_sql_join is what fails in class 1: the keys Int 1 and Float 1.0 match,
-   their DefaultHasher values differ *)
-Theorem hash_respects_fails_on_witness :
-  keys_match_static [VInt 1; VInt 10] [VFloat 4607182418800017408; VInt 100] [0%nat] [0%nat] = true /\ 2206609067086327257 <> 13833534234735907638.
-Proof. exact hash_respects_fails_on_w1_l. Qed.
+(* the hash hypothesis of grace_is_sql_join on the former class-1 witness: Int 1 and Float 1.0 match and
+   (since 50ce016, hash_join_key) carry the same DefaultHasher value *)
+Theorem hash_respects_on_witness :
+  keys_match_static [VInt 1; VInt 10] [VFloat 4607182418800017408; VInt 100] [0%nat] [0%nat] = true /\ (match w1 with Exec _ _ _ _ _ _ _ _ _ L R _ => forallb (fun l => forallb (fun r => implb (keys_match_static (fst l) (fst r) [0%nat] [0%nat]) (snd l =? snd r)) R) L | _ => false end) = true.
+Proof. exact hash_respects_on_w1_l. Qed.
 
 (* bag_eqb, the comparison used by the correspondence, is multiset equality *)
 Theorem bag_eqb_is_permutation :
@@ -124,10 +127,10 @@ Check spill_transparent : forall budget rows, forallb srow_ok rows = true -> spi
 Check grace_budget_independent : forall jt n lk rk lw rw budget sw (L R : list hrow), forallb srow_ok L = true -> forallb srow_ok R = true -> exec_model AGraceDyn jt n (Some budget) sw lk rk lw rw L R = exec_model AGraceDyn jt n None sw lk rk lw rw L R.
 Check grace_dyn_is_sql_join : forall jt n lk rk lw rw spill sw (L R : list hrow), 0 < n -> (forall l r : hrow, keys_match_static (fst l) (fst r) lk rk = true -> snd l = snd r) -> (spill = None \/ (forallb srow_ok L = true /\ forallb srow_ok R = true)) -> exists t, exec_model AGraceDyn jt n spill sw lk rk lw rw L R = XRows t /\ Permutation t (join_rows jt lw rw (fun l r => keys_match_static l r lk rk) (map fst L) (map fst R)).
 Check keys_match_is_sql_eq : forall lw lk rk (l r : row), length l = lw -> length lk = length rk -> Forall (fun i => (i < lw)%nat) lk -> forallb no_bool l = true -> forallb no_bool r = true -> on3 (keys_expr lw lk rk) l r <> None -> keys_match_static l r lk rk = on_tt (keys_expr lw lk rk) l r.
-Check hw_join_correct : forall jt lw rw on w sel (L R : table) t s, let q := mkq [(lw, L); (rw, R)] [(jt, on)] w (Some sel) in cls_sql q false = 0 -> Forall (fun l => length l = lw) L -> (forall e, opt_on jt on = Some e -> pred_ok e (pairs_of L R)) -> (forall e, w = Some e -> pred_ok e (pairs_of L R)) -> hw_model q false = HRows t -> query_spec q = Some s -> t = s.
-Check known_classes_refuted : refuted w1 1 = true /\ refuted w3 3 = true /\ refuted w4 4 = true /\ refuted w8 8 = true.
-Check known_classes_expected : (match w1 with Exec _ jt _ _ _ lk rk lw rw L R _ => bag_eqb (join_rows jt lw rw (on_tt (keys_expr lw lk rk)) (map fst L) (map fst R)) [[VInt 1; VInt 10; VFloat 4607182418800017408; VInt 100]; [VInt 2; VInt 20; VInt 2; VInt 200]] | _ => false end) = true /\ (match w3 with Sql q _ _ _ => query_spec q | _ => None end) = Some [[VInt 1; VInt 1]; [VInt 2; VInt 1]] /\ (match w4 with Sql q _ _ _ => query_spec q | _ => None end) = Some [[VInt 1; VInt 1]; [VInt 1; VInt 2]] /\ (match w8 with Sql q _ _ _ => query_spec q | _ => None end) = Some [[VInt 1; VInt 1]; [VInt 2; VInt 2]].
-Check hash_respects_fails_on_witness : keys_match_static [VInt 1; VInt 10] [VFloat 4607182418800017408; VInt 100] [0%nat] [0%nat] = true /\ 2206609067086327257 <> 13833534234735907638.
+Check hw_join_correct : int_bits_exact -> forall jt lw rw qual on w sel (L R : table) t s, let q := mkq [(lw, L); (rw, R)] [(jt, on)] w sel in cls_sql q qual = 0 -> Forall (fun l => length l = lw) L -> (forall e, opt_on jt on = Some e -> pred_ok e (pairs_of L R)) -> (forall e, w = Some e -> pred_ok e (join_rows jt lw rw (pair_tt (opt_on jt on)) L R)) -> hw_model q qual = HRows t -> query_spec q = Some s -> t = s.
+Check repaired_classes_regression : repaired w1 = true /\ repaired w2 = true /\ repaired w3 = true /\ repaired w4 = true /\ repaired w8 = true /\ repaired w10 = true.
+Check open_class_refuted : refuted w3s 3 = true /\ (match w3s with Sql q _ _ _ => query_spec q | _ => None end) = Some [[VInt 1; VInt 1]; [VInt 2; VNull]; [VInt 3; VNull]].
+Check hash_respects_on_witness : keys_match_static [VInt 1; VInt 10] [VFloat 4607182418800017408; VInt 100] [0%nat] [0%nat] = true /\ (match w1 with Exec _ _ _ _ _ _ _ _ _ L R _ => forallb (fun l => forallb (fun r => implb (keys_match_static (fst l) (fst r) [0%nat] [0%nat]) (snd l =? snd r)) R) L | _ => false end) = true.
 Check bag_eqb_is_permutation : forall a b, bag_eqb a b = true <-> Permutation a b.
 
 Print Assumptions nested_loop_is_sql_join.
@@ -141,7 +144,7 @@ Print Assumptions grace_budget_independent.
 Print Assumptions grace_dyn_is_sql_join.
 Print Assumptions keys_match_is_sql_eq.
 Print Assumptions hw_join_correct.
-Print Assumptions known_classes_refuted.
-Print Assumptions known_classes_expected.
-Print Assumptions hash_respects_fails_on_witness.
+Print Assumptions repaired_classes_regression.
+Print Assumptions open_class_refuted.
+Print Assumptions hash_respects_on_witness.
 Print Assumptions bag_eqb_is_permutation.
